@@ -12,7 +12,7 @@ import keyword
 import re
 import tokenize
 
-KINDS = ["delete", "duplicate", "swap", "rename", "crosswire", "retype", "truncate", "splice", "cyclic", "nest"]
+KINDS = ["delete", "duplicate", "swap", "rename", "crosswire", "retype", "truncate", "splice", "cyclic", "nest", "elements", "misarg"]
 
 
 def _stmts(src: str) -> list[tuple[int, int]] | None:
@@ -332,6 +332,168 @@ def nest(src: str, rng) -> str:
     return _splice_span(src, (val.lineno, val.col_offset, val.end_lineno, val.end_col_offset, v), new)
 
 
+SPECIAL_CALLS = {"NamedTuple", "TypedDict", "Enum", "IntEnum", "Flag", "IntFlag", "StrEnum", "NewType", "TypeVar", "ParamSpec",
+                 "TypeVarTuple", "namedtuple", "field", "ib", "attrib", "attr", "partial", "cast", "dataclass", "make_dataclass",
+                 "dataclass_transform", "total_ordering", "singledispatch", "TypeAliasType", "Literal", "Union", "Optional",
+                 "Callable", "Tuple", "tuple", "Generic", "Protocol", "Annotated", "Concatenate", "Unpack", "s", "define", "frozen"}
+SPECIAL_TARGETS = {"__slots__", "__all__", "__match_args__", "_fields_", "__deletable__", "_ignore_", "_order_"}
+SPECIAL_RE = re.compile(r"\b(NamedTuple|TypedDict|Enum|NewType|TypeVar|ParamSpec|namedtuple|field|attr\.ib|attrib|partial|cast|"
+                        r"__slots__|__all__|__match_args__|make_dataclass|TypeAliasType)\s*[(=]")
+
+
+def has_special_forms(src: str) -> bool:
+    return SPECIAL_RE.search(src) is not None
+
+
+def _call_name(c: ast.Call) -> str | None:
+    f = c.func
+    if isinstance(f, ast.Name):
+        return f.id
+    if isinstance(f, ast.Attribute):
+        return f.attr
+    return None
+
+
+def _displays_in(node: ast.AST) -> list[ast.AST]:
+    return [n for n in ast.walk(node) if isinstance(n, (ast.Tuple, ast.List, ast.Set)) and n.elts
+            or isinstance(n, ast.Dict) and n.keys]
+
+
+def elements(src: str, rng) -> str:
+    """element-level mutation inside the arguments of special forms and plugin-handled callables: delete / duplicate / swap /
+    cross-replace ONE element of a tuple, list, set or dict display (or one positional / keyword argument) that is an argument of
+    NamedTuple(), TypedDict(), Enum(), NewType(), TypeVar(), namedtuple(), field(), attr.ib(), partial(), cast(), a subscript such as
+    Callable[[…], …] / Literal[…] / Union[…], or the value of `__slots__` / `__all__` / `__match_args__`"""
+    try:
+        tree = ast.parse(src)
+    except (SyntaxError, ValueError, RecursionError, MemoryError):
+        return delete(src, rng)
+    seg = lambda e: ast.get_source_segment(src, e)  # noqa: E731
+    cands: list[tuple[str, ast.AST]] = []
+    for n in ast.walk(tree):
+        if isinstance(n, ast.Call) and _call_name(n) in SPECIAL_CALLS:
+            for a in list(n.args) + [k.value for k in n.keywords]:
+                cands += [("display", d) for d in _displays_in(a)] * 3
+            if len(n.args) + len(n.keywords) >= 1:
+                cands.append(("args", n))
+        elif isinstance(n, ast.Subscript):
+            base = n.value.id if isinstance(n.value, ast.Name) else (n.value.attr if isinstance(n.value, ast.Attribute) else None)
+            if base in SPECIAL_CALLS:
+                cands += [("display", d) for d in _displays_in(n.slice)]
+        elif isinstance(n, (ast.Assign, ast.AnnAssign)):
+            tgts = n.targets if isinstance(n, ast.Assign) else [n.target]
+            if any(isinstance(t, ast.Name) and t.id in SPECIAL_TARGETS for t in tgts) and n.value is not None:
+                cands += [("display", d) for d in _displays_in(n.value)] * 3
+        elif isinstance(n, ast.ClassDef) and len(n.bases) + len(n.keywords) >= 1:
+            cands.append(("bases", n))
+    if not cands:
+        return retype(src, rng)
+    kind, n = rng.choice(cands)
+    op = rng.choice(["delete", "delete", "duplicate", "swap", "cross", "empty"])
+    if kind == "display":
+        if isinstance(n, ast.Dict):
+            items = [f"{seg(k) if k is not None else '**'}: {seg(v)}" if k is not None else f"**{seg(v)}" for k, v in zip(n.keys, n.values)]
+            lb, rb = "{", "}"
+        else:
+            items = [seg(e) or "..." for e in n.elts]
+            whole = seg(n) or ""
+            lb, rb = {ast.List: ("[", "]"), ast.Set: ("{", "}")}.get(type(n), ("(", ")") if whole.startswith("(") else ("", ""))
+        items = _edit_items(items, op, rng)
+        body = ", ".join(items)
+        if isinstance(n, ast.Tuple) and len(items) == 1 and lb == "(":
+            body += ","
+        if isinstance(n, ast.Tuple) and not items and lb == "":
+            lb, rb = "(", ")"
+        return _splice_span(src, (n.lineno, n.col_offset, n.end_lineno, n.end_col_offset, ""), lb + body + rb)
+    if kind == "args":
+        items = [seg(a) or "..." for a in n.args] + [f"{k.arg}={seg(k.value)}" if k.arg else f"**{seg(k.value)}" for k in n.keywords]
+        items = _edit_items(items, op, rng)
+        return _splice_span(src, (n.lineno, n.col_offset, n.end_lineno, n.end_col_offset, ""), f"{seg(n.func)}({', '.join(items)})")
+    # class header: bases / keywords
+    items = [seg(b) or "object" for b in n.bases] + [f"{k.arg}={seg(k.value)}" if k.arg else f"**{seg(k.value)}" for k in n.keywords]
+    items = _edit_items(items, op, rng)
+    lines = _lines(src)
+    l = lines[n.lineno - 1]
+    m = re.match(r"^(\s*class\s+\w+\s*(\[[^\]]*\])?)\s*\(.*\)\s*:(.*)$", l)
+    if not m or n.body[0].lineno == n.lineno and not m.group(3).strip():
+        return src
+    lines[n.lineno - 1] = f"{m.group(1)}({', '.join(items)}):{m.group(3)}"
+    return _join(lines)
+
+
+def _edit_items(items: list[str], op: str, rng) -> list[str]:
+    items = list(items)
+    if not items:
+        return items
+    i = rng.randrange(len(items))
+    if op == "delete":
+        del items[i]
+    elif op == "duplicate":
+        items.insert(i, items[i])
+    elif op == "swap" and len(items) >= 2:
+        j = rng.randrange(len(items))
+        items[i], items[j] = items[j], items[i]
+    elif op == "cross" and len(items) >= 2:
+        items[i] = items[rng.randrange(len(items))]
+    elif op == "empty":
+        items = [] if rng.random() < 0.5 else items[:1]
+    else:
+        items.append(items[i])
+    return items
+
+
+def misarg(src: str, rng) -> str:
+    """error-path amplifier: an argument of a call (or the right-hand side of an annotated assignment / a return value) is
+    replaced by another expression of the same file — most likely of a different type, so that an incompatibility error about
+    an unusual pair of types is reported and its notes are rendered"""
+    try:
+        tree = ast.parse(src)
+    except (SyntaxError, ValueError, RecursionError, MemoryError):
+        return crosswire(src, rng)
+    seg = lambda e: ast.get_source_segment(src, e)  # noqa: E731
+    pool: list[str] = ["None", "...", "0", "''", "b''", "[]", "{}", "()", "lambda: 0", "type", "object", "int", "NotImplemented",
+                       "__name__", "print"]
+    sites: list[ast.expr] = []
+    for n in ast.walk(tree):
+        if isinstance(n, (ast.ClassDef, ast.FunctionDef, ast.AsyncFunctionDef)):
+            pool += [n.name, n.name + "()"] if isinstance(n, ast.ClassDef) else [n.name]
+        elif isinstance(n, ast.Import):
+            pool += [a.asname or a.name.split(".")[0] for a in n.names]
+        elif isinstance(n, ast.arg):
+            pool.append(n.arg)
+        elif isinstance(n, (ast.Assign, ast.AnnAssign)):
+            for t in (n.targets if isinstance(n, ast.Assign) else [n.target]):
+                if isinstance(t, ast.Name):
+                    pool.append(t.id)
+            if isinstance(n, ast.AnnAssign) and n.value is not None:
+                sites.append(n.value)
+        elif isinstance(n, ast.Call):
+            for a in list(n.args) + [k.value for k in n.keywords]:
+                sites.append(a)
+                s_ = seg(a)
+                if s_ and len(s_) < 60:
+                    pool.append(s_)
+        elif isinstance(n, ast.Return) and n.value is not None:
+            sites.append(n.value)
+    sites = [e for e in sites if getattr(e, "end_lineno", None) is not None]
+    if not sites:
+        return crosswire(src, rng)
+    out = src
+    # one to three replacements, applied bottom-up so that earlier spans stay valid
+    chosen = sorted(rng.sample(sites, min(len(sites), rng.randint(1, 3))), key=lambda e: (e.lineno, e.col_offset), reverse=True)
+    last = None
+    for e in chosen:
+        if last is not None and (e.end_lineno, e.end_col_offset) > (last.lineno, last.col_offset):
+            continue
+        old = seg(e) or ""
+        new = rng.choice([x for x in pool if x != old] or ["None"])
+        if rng.random() < 0.15:
+            new = rng.choice(["[{}]", "({}, {})", "type({})", "{} or None", "lambda: {}"]).replace("{}", new)
+        out = _splice_span(out, (e.lineno, e.col_offset, e.end_lineno, e.end_col_offset, old), new)
+        last = e
+    return out
+
+
 def mutate(kind: str, src: str, rng, other: str) -> str:
     try:
         if kind == "delete":
@@ -354,6 +516,10 @@ def mutate(kind: str, src: str, rng, other: str) -> str:
             return cyclic(src, rng)
         if kind == "nest":
             return nest(src, rng)
+        if kind == "elements":
+            return elements(src, rng)
+        if kind == "misarg":
+            return misarg(src, rng)
     except (IndexError, ValueError, RecursionError):
         pass
     return src
